@@ -136,7 +136,9 @@ Fixpoint gmatch (items : list pitem) (s : str) : bool :=
 Definition fnmatch (pat s : str) : bool := gmatch (parse_pat (S (length pat)) pat) s.
 
 (* ------------------------------------------------------------------ nodes, path-keyed maps *)
-Inductive node := File (data : str) | Sym (target : str) | Dir.
+(* a regular file: (content token, attributes token "mode.uid.gid"); both opaque to the triggers *)
+Definition fdata := (str * str)%type.
+Inductive node := File (data : fdata) | Sym (target : str) | Dir.
 Definition pmap := list (str * node).
 
 Fixpoint pm_get (k : str) (m : pmap) : option node :=
@@ -156,7 +158,7 @@ Definition pm_has (k : str) (m : pmap) : bool := match pm_get k m with Some _ =>
 (* simple_chksum_compare on a pair of fs objects (either order): both regular, same checksums *)
 Definition same_content (a b : node) : bool :=
   match a, b with
-  | File x, File y => str_eqb x y
+  | File x, File y => str_eqb (fst x) (fst y)          (* checksums only: mode and owner play no part *)
   | _, _ => false
   end.
 
@@ -412,10 +414,15 @@ Definition VT (s : bstr) : val := VS (s2l s).
 
 Definition split_on (sep : N) (s : str) : list str := split_by_aux (N.eqb sep) [] s.
 Definition items (s : str) : list str := match s with [] => [] | _ => split_on 124 s end.
+Definition dec_fdata (s : str) : fdata :=                   (* "content,attrs" *)
+  match split_on 44 s with
+  | c :: a :: _ => (c, a)
+  | _ => (s, [])
+  end.
 Definition dec_node (f : list str) : str * node :=
   match f with
   | [loc; k; data] =>
-      (loc, if str_eqb k [102%N] then File data else if str_eqb k [115%N] then Sym data else Dir)
+      (loc, if str_eqb k [102%N] then File (dec_fdata data) else if str_eqb k [115%N] then Sym data else Dir)
   | loc :: _ => (loc, Dir)
   | [] => ([], Dir)
   end.
@@ -442,10 +449,10 @@ Fixpoint join (sep : N) (l : list str) : str :=
   | [x] => x
   | x :: r => x ++ sep :: join sep r
   end.
-(* files and symlinks of a tree, sorted by location: "loc;f;data" / "loc;s;target" *)
+(* files and symlinks of a tree, sorted by location: "loc;f;content,attrs" / "loc;s;target" *)
 Definition show_tree (m : pmap) : str :=
   join 124 (sort_str (flat_map (fun e => match snd e with
-                                        | File d => [fst e ++ [59; 102; 59]%N ++ d]
+                                        | File d => [fst e ++ [59; 102; 59]%N ++ fst d ++ [44%N] ++ snd d]
                                         | Sym t => [fst e ++ [59; 115; 59]%N ++ t]
                                         | Dir => []
                                         end) m)).
